@@ -125,8 +125,8 @@ TryLock(S, t, l, okpc, waitpc) ==
                         ELSE [S EXCEPT !.lock[l].q = Enq(@, t), !.pc[t] = waitpc]
 
 \* the locals of a task that ended
-Dead(S, t, p) == [S EXCEPT !.pc[t] = p, !.tk[t] = 0, !.tc[t] = 0, !.ck[t] = 0, !.tq[t] = {}, !.tforce[t] = FALSE,
-                           !.why[t] = "", !.cwc[t] = FALSE]
+Dead(S, t) == [S EXCEPT !.tk[t] = 0, !.tc[t] = 0, !.ck[t] = 0, !.tq[t] = {}, !.tforce[t] = FALSE,
+                        !.why[t] = "", !.cwc[t] = FALSE]
 
 \* where a task continues once it owns the lock it queued for / where CancelledError goes when raised at that await
 AfterLock(p, c) ==
@@ -180,34 +180,41 @@ Micro(S, t) ==
              ELSE IF S.pc[r] = "errored" THEN [S1 EXCEPT !.pc[t] = "x_fin", !.why[t] = "error"]
              ELSE [S1 EXCEPT !.pc[t] = "a_join", !.join[t] = r] : r \in S.rtasks}
   \* with (yield from self._host_pools_lock):
-  [] p = "a_l1" -> {TryLock(S, t, 0, "a_l1cs", "a_l1w")}
+  [] p = "a_l1" ->
+       {TryLock(S, t, 0, "a_l1cs", "a_l1w")}
   \*   create the host pool or count one more waiter; leave the with block
   [] p = "a_l1cs" ->
        {[S EXCEPT !.waiters[k] = IF S.present[k] THEN @ + 1 ELSE 1, !.present[k] = TRUE,
                   !.lock[0] = Released(@), !.pc[t] = "h_acq"]}
   (* ---------------- HostPool.acquire ---------------- *)
   \* yield from self._condition.acquire()
-  [] p = "h_acq" -> {TryLock(S, t, k, "h_loop", "h_acqw")}
+  [] p = "h_acq" ->
+       {TryLock(S, t, k, "h_loop", "h_acqw")}
   \* while True: pop an idle connection / make a new one / wait on the condition (= release the lock and park)
   [] p = "h_loop" ->
        IF S.ready[k] # {}
        THEN {[S EXCEPT !.ready[k] = @ \ {y}, !.tc[t] = y, !.pc[t] = "h_got"] : y \in S.ready[k]}
        ELSE IF Cardinality(S.busy[k]) < M
-       THEN LET y == Min(Conns \ UsedConns(S)) IN
-            {[S EXCEPT !.tc[t] = y, !.cstat[y] = "dn", !.pc[t] = "h_got"]}
+       THEN IF Conns \ UsedConns(S) = {} THEN {}        \* id pool exhausted (CMax too small): no successor
+            ELSE LET y == Min(Conns \ UsedConns(S)) IN
+                 {[S EXCEPT !.tc[t] = y, !.cstat[y] = "dn", !.pc[t] = "h_got"]}
        ELSE {[S EXCEPT !.lock[k] = Released(@), !.cond[k] = Enq(@, t), !.pc[t] = "h_cw"]}
   \* Condition.wait(), finally: await self.acquire()  (in a loop that swallows cancellations)
-  [] p = "h_cwl" -> {TryLock(S, t, k, IF S.cwc[t] THEN "x_cw" ELSE "h_loop", "h_cwlw")}
+  [] p = "h_cwl" ->
+       {TryLock(S, t, k, IF S.cwc[t] THEN "x_cw" ELSE "h_loop", "h_cwlw")}
   \* self.busy.add(connection); self._condition.release(); back in ConnectionPool.acquire: connection.key = key
   [] p = "h_got" ->
        LET S1 == [S EXCEPT !.busy[k] = @ \cup {x}, !.lock[k] = Released(@)] IN
        IF FixCancel THEN {[S1 EXCEPT !.waiters[k] = @ - 1, !.pc[t] = "a_ret"]}   \* finally: waiters -= 1, no lock
                     ELSE {[S1 EXCEPT !.pc[t] = "a_l2"]}
   \* with (yield from self._host_pools_lock): self._host_pool_waiters[key] -= 1      (unrepaired code only)
-  [] p = "a_l2" -> {TryLock(S, t, 0, "a_l2cs", "a_l2w")}
-  [] p = "a_l2cs" -> {[S EXCEPT !.waiters[k] = @ - 1, !.lock[0] = Released(@), !.pc[t] = "a_ret"]}
+  [] p = "a_l2" ->
+       {TryLock(S, t, 0, "a_l2cs", "a_l2w")}
+  [] p = "a_l2cs" ->
+       {[S EXCEPT !.waiters[k] = @ - 1, !.lock[0] = Released(@), !.pc[t] = "a_ret"]}
   \* return connection: the client holds it from now on and waits for the environment
-  [] p = "a_ret" -> {[S EXCEPT !.pc[t] = "use"]}
+  [] p = "a_ret" ->
+       {[S EXCEPT !.pc[t] = "use"]}
   (* ---------------- exceptions leaving acquire ---------------- *)
   \* CancelledError leaves Condition.wait() - the lock has been re-acquired.  Unrepaired: nobody releases it.
   \* Repaired: except: notify() (pass a possibly consumed notification on); finally: release()
@@ -224,12 +231,15 @@ Micro(S, t) ==
             ELSE {[S EXCEPT !.waiters[k] = @ - 1, !.pc[t] = "x_fin"]}
        ELSE {[S EXCEPT !.pc[t] = "x_fin"]}
   \* the exception leaves clean(): the with block releases the pools lock
-  [] p = "x_clean" -> {[S EXCEPT !.lock[0] = Released(@), !.pc[t] = "x_rfin"]}
+  [] p = "x_clean" ->
+       {[S EXCEPT !.lock[0] = Released(@), !.pc[t] = "x_rfin"]}
   \* the task ends with the exception
-  [] p \in {"x_fin", "x_rfin"} -> {Dead(S, t, IF S.why[t] = "error" THEN "errored" ELSE "cancelled")}
+  [] p \in {"x_fin", "x_rfin"} ->
+       {[Dead(S, t) EXCEPT !.pc[t] = IF S.why[t] = "error" THEN "errored" ELSE "cancelled"]}
   (* ---------------- ConnectionPool.release (inline in a client, or as a no_wait_release task) ---------------- *)
   \* a release task that was cancelled before it ever ran
-  [] p = "xnew" -> {Dead(S, t, "cancelled")}
+  [] p = "xnew" ->
+       {[Dead(S, t) EXCEPT !.pc[t] = "cancelled"]}
   \* host_pool = self._host_pools[key]; HostPool.release: yield from self._condition.acquire()
   [] p \in {"r_start", "new"} ->
        IF ~S.present[k] THEN {[S EXCEPT !.pc[t] = "x_rfin", !.why[t] = "error"]}                  \* KeyError
@@ -241,9 +251,11 @@ Micro(S, t) ==
                                 !.lock[k] = Released(@)] IN
             {[S1 EXCEPT !.tforce[t] = (Count(S1) > MaxCount), !.pc[t] = "c_l"]}
   \* ConnectionPool.clean: with (yield from self._host_pools_lock):
-  [] p = "c_l" -> {TryLock(S, t, 0, "c_loop0", "c_lw")}
+  [] p = "c_l" ->
+       {TryLock(S, t, 0, "c_loop0", "c_lw")}
   \*   for key, pool in tuple(self._host_pools.items()):
-  [] p = "c_loop0" -> {[S EXCEPT !.tq[t] = {j \in Keys : S.present[j]}, !.pc[t] = "c_loop"]}
+  [] p = "c_loop0" ->
+       {[S EXCEPT !.tq[t] = {j \in Keys : S.present[j]}, !.pc[t] = "c_loop"]}
   \*     yield from pool.clean(force):  with (yield from self._lock):
   [] p = "c_loop" ->
        IF S.tq[t] = {} THEN {[S EXCEPT !.lock[0] = Released(@), !.pc[t] = "r_ret"]}
@@ -259,7 +271,8 @@ Micro(S, t) ==
        THEN {[S1 EXCEPT !.present[j] = FALSE, !.lock[j] = EmptyLock]}
        ELSE {[S1 EXCEPT !.lock[j] = Released(@)]}
   \* release() returns
-  [] p = "r_ret" -> {Dead(S, t, IF IsClient(t) THEN "idle" ELSE "done")}
+  [] p = "r_ret" ->
+       {[Dead(S, t) EXCEPT !.pc[t] = IF IsClient(t) THEN "idle" ELSE "done"]}
 
 \* run the block to its end: until the task parks, waits for the environment, or is over
 RECURSIVE RunAll(_, _)
